@@ -308,17 +308,23 @@ class CallListerVisitor(ast.NodeVisitor):
             # only the first iterable is evaluated on the spot
             self.visit(node.generators[0].iter)
         self.namespace = Namespace(self.namespace, inline=True, lazy=lazy)
-        for i, generator in enumerate(node.generators):
-            if lazy and i == 0:
-                self.visit(generator.target)
-                for cond in generator.ifs:
-                    self.visit(cond)
-            else:
-                self.visit(generator)
-        for field in ('elt', 'key', 'value'):
-            child = getattr(node, field, None)
-            if child is not None:
-                self.visit(child)
+        # the element is evaluated once per item: as for a loop body, what
+        # one round does to the names holds for the next one
+        ncalls, nrevisit = len(self.calls), len(self.to_revisit)
+        for round in range(2):
+            del self.calls[ncalls:]
+            del self.to_revisit[nrevisit:]
+            for i, generator in enumerate(node.generators):
+                if lazy and i == 0:
+                    self.visit(generator.target)
+                    for cond in generator.ifs:
+                        self.visit(cond)
+                else:
+                    self.visit(generator)
+            for field in ('elt', 'key', 'value'):
+                child = getattr(node, field, None)
+                if child is not None:
+                    self.visit(child)
         self.namespace = self.namespace.parent
 
     def visit_NamedExpr(self, node):
